@@ -165,6 +165,10 @@ pub struct Exec<'s, const M: usize> {
     pub pos: usize,
     /// a reset happened after the current limit was set (C06: "keeps its allocation limit")
     pub reset_since_limit_set: bool,
+    /// an inconsistency of the harness's own bookkeeping seen during the step; reported at the end
+    /// of the step unless the step's oracles find the violation that explains it (a tree that
+    /// writes outside its chunks can corrupt the harness's statics too)
+    pub harness_note: Option<&'static str>,
 }
 
 pub enum CallOut<R> {
@@ -223,6 +227,7 @@ impl<'s, const M: usize> Exec<'s, M> {
             slot_fit: None,
             pos: 0,
             reset_since_limit_set: false,
+            harness_note: None,
         }
     }
 
@@ -341,6 +346,29 @@ impl<'s, const M: usize> Exec<'s, M> {
                     match outcome {
                         Refusal::Granted => {
                             self.stats.hit("chunk_granted");
+                            // C18: a new block is at least as large as the last one unless a block
+                            // of that size was refused by the allocator in this very call or the
+                            // limit leaves no room for it
+                            if let Some(last) = self.held.last().map(|e| e.size) {
+                                if size + 64 < last {
+                                    let refused_as_large = self.op_reqs.iter().any(|r| !r.1 && r.0 + 64 >= last);
+                                    let limited = match self.limit {
+                                        Some(l) => {
+                                            let held_usable: usize = self.held.iter().map(|e| e.size.saturating_sub(self.k)).sum();
+                                            l < 512 || l.saturating_sub(held_usable) < last
+                                        }
+                                        None => false,
+                                    };
+                                    if !refused_as_large && !limited {
+                                        self.violate(
+                                            "C18",
+                                            "chunk-smaller-than-last-although-permitted",
+                                            "",
+                                            format!("new chunk {} after {} (limit {:?}, refused in this call: {:?})", size, last, self.limit, self.op_reqs),
+                                        );
+                                    }
+                                }
+                            }
                             // C07(1): bytes held for allocation never exceed the limit
                             if let Some(l) = self.limit {
                                 let held_usable: usize =
@@ -426,6 +454,10 @@ impl<'s, const M: usize> Exec<'s, M> {
                         Anomaly::LedgerOverflow => ("HARNESS", "ledger-overflow"),
                         Anomaly::EventOverflow => ("HARNESS", "event-overflow"),
                     };
+                    if prop == "HARNESS" {
+                        self.harness_note = Some(name);
+                        continue;
+                    }
                     self.violate(prop, name, "", format!("a={} b={}", a, b));
                 }
             }
